@@ -446,9 +446,10 @@ def getkeyword_amp(rf, sf):
 
 
 def recovery_scan(ai):
-    """the `);` recovery scan at the end of SDAI_Application_instance::STEPread: (stays in the record, puts the `;` back).
-    Two shapes are modelled (`recOuter stay pb`): the plain scan for `)` ws `;`, and the one that also ends at a semicolon
-    outside a string literal."""
+    """the `);` recovery scan at the end of SDAI_Application_instance::STEPread: (stays in the record, counts apostrophes,
+    puts the `;` back).  Three shapes are modelled (`recoverOuter stay quotes pb`): the plain scan for `)` ws `;`, the one
+    that also ends at a semicolon outside a string literal (apostrophes counted from where the scan starts), and the one that
+    ends at the first semicolon whatever precedes it."""
     b = _ws(_strip(_body(ai, r"Severity\s+SDAI_Application_instance::STEPread\s*\(", "SDAI_Application_instance::STEPread")))
     m = re.search(r"in\.clear\(\);intfoundEnd=0;std::stringtmp;tmp=\"\";(.*?)_error\.AppendToDetailMsg\(tmp\.c_str\(\)\);", b)
     if not m:
@@ -457,14 +458,19 @@ def recovery_scan(ai):
     plain = re.fullmatch(r"while\(in\.good\(\)&&!foundEnd\)\{while\(in\.good\(\)&&\(c!='\)'\)\)\{in\.get\(c\);tmp\+=c;\}"
                          r"if\(in\.good\(\)&&\(c=='\)'\)\)\{in>>ws;in\.get\(c\);tmp\+=c;if\(c==';'\)\{(in\.putback\(c\);)?foundEnd=1;\}\}\}", scan)
     if plain:
-        return False, bool(plain.group(1))
+        return False, False, bool(plain.group(1))
     stay = re.fullmatch(r"boolinString=false;while\(in\.good\(\)&&!foundEnd\)\{while\(in\.good\(\)&&\(c!='\)'\)&&!foundEnd\)\{in\.get\(c\);tmp\+=c;"
                         r"if\(in\.good\(\)\)\{if\(c=='\\''\)\{inString=!inString;\}elseif\(c==';'&&!inString\)\{in\.putback\(c\);foundEnd=1;\}\}\}"
                         r"if\(!foundEnd&&in\.good\(\)&&\(c=='\)'\)\)\{in>>ws;in\.get\(c\);tmp\+=c;if\(c==';'\)\{in\.putback\(c\);foundEnd=1;\}"
                         r"elseif\(in\.good\(\)&&c=='\\''\)\{inString=!inString;\}\}\}", scan)
     if stay:
-        return True, True
-    raise ValueError("SDAI_Application_instance::STEPread: the recovery scan is neither of the two modelled shapes")
+        return True, True, True
+    first = re.fullmatch(r"while\(in\.good\(\)&&!foundEnd\)\{while\(in\.good\(\)&&\(c!='\)'\)&&!foundEnd\)\{in\.get\(c\);tmp\+=c;"
+                         r"if\(in\.good\(\)&&c==';'\)\{in\.putback\(c\);foundEnd=1;\}\}"
+                         r"if\(!foundEnd&&in\.good\(\)&&\(c=='\)'\)\)\{in>>ws;in\.get\(c\);tmp\+=c;if\(c==';'\)\{in\.putback\(c\);foundEnd=1;\}\}\}", scan)
+    if first:
+        return True, False, True
+    raise ValueError("SDAI_Application_instance::STEPread: the recovery scan is none of the three modelled shapes")
 
 
 def skip_comments(rf):
@@ -711,7 +717,7 @@ def extract(repo):
     nms_exact = nms_copy_exact(sc)
     skipcm = skip_comments(rf)
     gk_amp = getkeyword_amp(rf, sf)
-    rs_stay, rs_pb = recovery_scan(rd("src/clstepcore/sdaiApplication_instance.cc"))
+    rs_stay, rs_quotes, rs_pb = recovery_scan(rd("src/clstepcore/sdaiApplication_instance.cc"))
     ad = [aggr_deletes(rd(f), sig, w) for f, sig, w in [
         ("src/clstepcore/STEPaggregate.cc", r"Severity\s+STEPaggregate::ReadValue\s*\(", "STEPaggregate::ReadValue"),
         ("src/clstepcore/STEPaggrEntity.cc", r"Severity\s+EntityAggregate::ReadValue\s*\(", "EntityAggregate::ReadValue"),
@@ -796,6 +802,9 @@ def imbedAggrStaysInRecord : Bool := {b(ia_stay)}
 /-- the `);` recovery scan of `SDAI_Application_instance::STEPread`: it also ends at a semicolon outside a string literal
 (the end of the record); it puts the `;` it found back -/
 def recoveryScanStaysInRecord : Bool := {b(rs_stay)}
+/-- ... and only a `;` outside a string literal ends it, apostrophes counted from where the scan starts (the scan may start
+inside a literal: then it runs past the record's `;`) -/
+def recoveryScanCountsQuotes : Bool := {b(rs_quotes)}
 def recoveryScanPutsBackSemi : Bool := {b(rs_pb)}
 
 /-- `SkipInstance` has the `case '/':` that steps over a comment -/
